@@ -1443,12 +1443,14 @@ def _cmp_nest(c, io, m):
             out.append(("spec", "the output is not the composition / sum of the parts' outputs: " + d))
     flt = any(p.get("float") for p in (io["numpoly"], io["denpoly"]))
     tol = 1e-9 if flt else 0
-    # two code shapes are accepted: as coded (reduce(operator.add, self) on the raw elements) and the repair of D22
-    if not (_polys_match(io, m["polys_coded"], tol) or _polys_match(io, m["polys_fixed"], tol)) \
-            and not _garbage_possible(c["obj"]):
-        out.append(("model", "numpoly/denpoly: impl=%s / %s model(as coded)=%s model(repaired)=%s" % (
-            json.dumps(io["numpoly"])[:120], json.dumps(io["denpoly"])[:120], json.dumps(m["polys_coded"])[:160],
-            json.dumps(m["polys_fixed"])[:160])))
+    # the model follows the code as it stands (D22 repaired in /repo 04c3c25: `_sum_filter` adds the parts as filters,
+    # `FL.polys`); the old shape (`FL.polysC`: reduce(operator.add, self) on the raw elements) is only kept as a
+    # regression model that names the defect when the code falls back to it
+    if not _polys_match(io, m["polys_fixed"], tol):
+        back = _polys_match(io, m["polys_coded"], tol) or _garbage_possible(c["obj"])
+        out.append(("model", "numpoly/denpoly: impl=%s / %s model=%s%s" % (
+            json.dumps(io["numpoly"])[:120], json.dumps(io["denpoly"])[:120], json.dumps(m["polys_fixed"])[:160],
+            " (the impl agrees with the regression model of D22 %s)" % json.dumps(m["polys_coded"])[:120] if back else "")))
     sp = m.get("spec")
     if sp is not None and "err" not in m["polys_fixed"]:
         kind = "parallel" if c["obj"][0] == "new" and c["obj"][1] else "filter list"
